@@ -106,9 +106,16 @@ def run(ctx):
     # ---- D. load --------------------------------------------------------------------------
     prog = shapes.build(p, "L::compiler::ByteCode")
     ov = step.machine_overrides(p, None, None, None, stacksize_notset=False)
-    I.events.clear()
-    step.run_method(p, I, "L::machine::Machine::load", ov, extra_args=[prog], ty=step.MACHINE)
-    harvest("Machine::load")
+    # one run per kind of *PROGRAMSIZE directive: a site that can fail is keyed by the directive kinds it fails for (the
+    # known oversized-image findings belong to AUTO; a failure for a declared size is a different input)
+    bcn = p.field_names("L::compiler::ByteCode")
+    ps_t = p.need_type("L::parser::ast::Programsize")
+    for vi_, v_ in enumerate(ps_t["variants"]):
+        pv = En({vi_: tuple(asmmodel.U8 for _ in v_["fields"])})
+        prog_v = Agg([pv if f_ == "programsize" else x_ for f_, x_ in zip(bcn, prog.f)]) if isinstance(prog, Agg) else prog
+        I.events.clear()
+        step.run_method(p, I, "L::machine::Machine::load", ov, extra_args=[prog_v], ty=step.MACHINE)
+        harvest("Machine::load[%s]" % v_["n"])
     I.events.clear()
     st = absint.State()
     I.run_body(p.need_body("L::machine::Machine::new_with_program"),
@@ -221,6 +228,10 @@ def run(ctx):
         b = p.bodies[s["fn"]]
         where = "%s:%s" % (b.file, s["ln"])
         fl = failing.get((s["fn"], s["bb"]))
+        if fl:
+            kinds_ = sorted({lab_[len("Machine::load["):-1] for lab_, _e in fl if lab_.startswith("Machine::load[")})
+            if kinds_:
+                s = dict(s, key="%s@%s" % (s["key"], ",".join(kinds_)))
         reached = (s["fn"], s["bb"]) in I.block_hits
         rule = "a site reachable for an accepted program can never fail"
         is_lookup = s["kind"] in ("expect", "unwrap") and _receiver_is_map_get(b, s["term"])
